@@ -3,14 +3,20 @@
 deliveries (/tmp/seedout/Cxx/{patchN.diff,demoN_test.go,metaN.json}) and the evaluation results
 (/tmp/seedeval*/Cxx-N.json written by tools/evalseed.py; later directories override earlier ones for 'detection')."""
 import glob, json, os, shutil, sys
-SRC = '/tmp/seedout'
-EVALS = sorted(glob.glob('/tmp/seedeval*'))
+# (delivery directory, evaluation directories in order, offset added to the sub-agent's change number)
+ROUNDS = [('/tmp/seedout', [d for d in sorted(glob.glob('/tmp/seedeval*')) if '_r2' not in d], 0),
+          ('/tmp/seedout2', sorted(glob.glob('/tmp/seedeval_r2*')), 2)]
 OUT = '/verif/seeded'
 os.makedirs(OUT, exist_ok=True)
 rows = []
-for p in sorted(glob.glob(SRC + '/C*/patch*.diff')):
+jobs = []
+for SRC, EVALS, off in ROUNDS:
+    for p in sorted(glob.glob(SRC + '/C*/patch*.diff')):
+        jobs.append((p, EVALS, off))
+for p, EVALS, off in jobs:
     d = os.path.dirname(p); prop = os.path.basename(d); n = os.path.basename(p)[5:-5]
-    sid = '%s-%s' % (prop, n)
+    sid = '%s-%d' % (prop, int(n) + off)
+    esid = '%s-%s' % (prop, n)
     dst = os.path.join(OUT, sid)
     os.makedirs(dst, exist_ok=True)
     shutil.copy(p, os.path.join(dst, 'patch.diff'))
@@ -21,7 +27,7 @@ for p in sorted(glob.glob(SRC + '/C*/patch*.diff')):
         am = {}
     confirm, history = {}, []
     for ev in EVALS:
-        f = os.path.join(ev, sid + '.json')
+        f = os.path.join(ev, esid + '.json')
         if not os.path.exists(f):
             continue
         try:
@@ -38,7 +44,7 @@ for p in sorted(glob.glob(SRC + '/C*/patch*.diff')):
     meta = dict(id=sid, breaks_property=prop, summary=am.get('summary'), file=am.get('file'), function=am.get('function'),
                 needs_to_manifest=am.get('needs'), example_input=am.get('example_input'), expected=am.get('expected'),
                 actual_with_change=am.get('actual_with_change'),
-                origin='written by a fresh sub-agent that was given only the text of the property and a scratch worktree of /repo (nothing from /verif)',
+                origin='written by a fresh sub-agent that was given only the text of the property and a scratch worktree of /repo (nothing from /verif)' + ('; second round: it was also told one-line summaries of the first-round changes for this property and asked for something of a different kind' if off else ''),
                 confirmed_by_us=confirm,
                 what_we_ran=['scratch worktree of /repo HEAD; cp demo_test.go; go test -run TestSeedDemo . (passes)',
                              'git apply patch.diff; go test -run TestSeedDemo . (fails); go build -tags verif ./...; go test -vet=off -count=1 ./... (passes)',
@@ -52,6 +58,7 @@ for p in sorted(glob.glob(SRC + '/C*/patch*.diff')):
         rp = last.get('replay') or {}
         what = (rp.get('message') or '; '.join(rp.get('no_longer_checks', []) or []) or '')[:160]
     rows.append((sid, (am.get('summary') or '')[:110], first, last, what))
+rows.sort()
 with open(os.path.join(OUT, 'INDEX.md'), 'w') as f:
     f.write('# Seeded changes and which checks catch them\n\n'
             'Each directory holds one change to woodsbury/decimal128 written by an independent sub-agent (property text only), '
